@@ -690,7 +690,126 @@ def run_init(case):
     return [], [["ok", enc_col(c)], second], line, "init"
 
 
-RUNNERS = {"schema": run_schema, "json": run_json, "flat": run_flat, "flat2": run_flat2, "snap": run_snap, "json2": run_json2,
+HAND = ("twice", "dict-mutated-after-load", "missing-keys", "extra-keys", "entries", "none-keys", "copies")
+
+
+def run_hand(case):
+    """Sequences and hand-written dictionaries (fourth pass).  The reference is what the unchanged tree does, as the
+    theorems state it (`generated_schema_from_dict_eq_model` / `fromDictE`, `generated_schema_from_dict_by_hand`,
+    `declared_defaults`): `name` / `columns` absent -> KeyError, `aliases` absent -> [], `primary_key` absent -> None, a column
+    entry that is a name -> FlatColumn(name=...) with the declared defaults, an entry that is neither a dictionary nor a name is
+    skipped, unknown keys are ignored, an explicit None for an Optional attribute is the absent key."""
+    import copy
+    import pickle
+
+    S, _ = _orso()
+    which = case["which"]
+    fails = []
+
+    def bad(clause, **detail):
+        fails.append(("hand: " + clause, dict(detail, op="hand", which=which)))
+
+    with warnings.catch_warnings():
+        warnings.simplefilter("ignore")
+        try:
+            col = construct(case["col"])
+            other = S.FlatColumn(name="zz", identity="id-zz", aliases=["q"])
+            s = S.RelationSchema(name="t", aliases=["u", "u"], columns=[col, other], primary_key=col.name)
+            d = s.to_dict()
+            r0 = S.RelationSchema.from_dict(copy.deepcopy(d))
+        except Exception:
+            return [], None, None, None   # outside this kind's domain (the plain kinds report it)
+        if _schema_diffs(s, r0):
+            return [], None, None, None   # the plain round trip differs already (reported by the schema kind)
+        try:
+            if which == "twice":
+                d2 = s.to_dict()
+                if not same_value(d, d2):
+                    bad("to_dict called twice gives two different dictionaries")
+                pairs = [(d["aliases"], s.aliases), (d["aliases"], d2["aliases"]), (d["columns"], s.columns), (d["columns"], d2["columns"])]
+                for i, c in enumerate(s.columns):
+                    pairs += [(d["columns"][i], d2["columns"][i]), (d["columns"][i]["aliases"], c.aliases),
+                              (d["columns"][i]["aliases"], d2["columns"][i]["aliases"]), (d["columns"][i]["origin"], c.origin)]
+                for x, y in pairs:
+                    if x is y and isinstance(x, (list, dict)):
+                        bad("to_dict hands out a list / dictionary it shares with the schema or with an earlier result")
+                        break
+                d["aliases"].append("w"), d["columns"][0]["aliases"].append("w"), d["columns"].pop()
+                if not same_value(s.to_dict(), d2):
+                    bad("editing the dictionary to_dict returned changes what to_dict returns next")
+            elif which == "dict-mutated-after-load":
+                r = S.RelationSchema.from_dict(d)
+                d["name"], d["primary_key"] = "other", "other"
+                d["columns"][0]["name"] = "other"
+                d["columns"][0]["nullable"] = not d["columns"][0]["nullable"]
+                d["columns"].clear()
+                for what, x, y in _schema_diffs(r0, r):
+                    bad("changing the dictionary after from_dict changes the loaded schema", attr=what, orig=show(x), got=show(y))
+                    break
+            elif which == "missing-keys":
+                m = S.RelationSchema.from_dict({"name": "t", "columns": copy.deepcopy(d["columns"])})
+                if m.aliases != [] or m.primary_key is not None:
+                    bad("absent aliases / primary_key keys are not the declared defaults", got=show([m.aliases, m.primary_key]))
+                if _schema_diffs(S.RelationSchema(name="t", columns=list(s.columns)), m):
+                    bad("a dictionary without aliases / primary_key loads other columns")
+                for k in ("name", "columns"):
+                    dd = copy.deepcopy(d)
+                    del dd[k]
+                    try:
+                        S.RelationSchema.from_dict(dd)
+                        bad("a dictionary without the %s key is accepted" % k)
+                    except KeyError:
+                        pass
+                def is_declared_default(k, v):
+                    if k in ("name", "type", "identity", "element_type"):
+                        return False
+                    return v is None or (k == "nullable" and v is True) or (k in ("aliases", "expectations", "origin") and v == [])
+
+                cd = {k: v for k, v in d["columns"][0].items() if not is_declared_default(k, v)}
+                m2 = S.FlatColumn.from_dict(cd)
+                for attr, x, y in attr_diffs(r0.columns[0], m2, LISTED):
+                    bad("a column dictionary without the keys that hold the declared default loads another column", attr=attr,
+                        orig=show(x), got=show(y))
+            elif which == "extra-keys":
+                dd = copy.deepcopy(d)
+                dd["zzz"] = 1
+                for c in dd["columns"]:
+                    c["zzz"] = [1]
+                for what, x, y in _schema_diffs(r0, S.RelationSchema.from_dict(dd)):
+                    bad("unknown keys change the loaded schema", attr=what, orig=show(x), got=show(y))
+                    break
+            elif which == "entries":
+                m = S.RelationSchema.from_dict({"name": "t", "columns": [col.name, 5, None, copy.deepcopy(d["columns"][0]), ("x",)]})
+                if len(m.columns) != 2:
+                    bad("column entries [name, 5, None, dictionary, tuple] load %d columns (a name and a dictionary are loaded, the rest skipped)"
+                        % len(m.columns))
+                else:
+                    ref = S.FlatColumn(name=col.name, identity=m.columns[0].identity)
+                    for attr, x, y in attr_diffs(ref, m.columns[0], LISTED):
+                        bad("a column entry that is a name does not load as FlatColumn(name=...)", attr=attr, orig=show(x), got=show(y))
+                    for attr, x, y in attr_diffs(r0.columns[0], m.columns[1], LISTED):
+                        bad("a dictionary entry next to other entries loads another column", attr=attr, orig=show(x), got=show(y))
+            elif which == "none-keys":
+                cd = copy.deepcopy(d["columns"][0])
+                # (the element type is left as written: an ARRAY's explicit null element type is what F09 reads, `from_dict_only_repairs`)
+                absent = {k: v for k, v in cd.items() if v is not None or k == "element_type"}
+                a, b = S.FlatColumn.from_dict(cd), S.FlatColumn.from_dict(absent)
+                for attr, x, y in attr_diffs(a, b, LISTED):
+                    bad("an explicit None differs from the absent key", attr=attr, orig=show(x), got=show(y))
+            elif which == "copies":
+                for nm, f in (("copy.deepcopy", copy.deepcopy), ("pickle", lambda x: pickle.loads(pickle.dumps(x))), ("copy.copy", copy.copy)):
+                    c2 = f(s)
+                    if _schema_diffs(s, c2) or not same_value(c2.to_dict(), d):
+                        bad("%s of a schema is not written as the same dictionary" % nm)
+                    for what, x, y in _schema_diffs(s, S.RelationSchema.from_dict(c2.to_dict())):
+                        bad("the %s of a schema does not round-trip" % nm, attr=what)
+                        break
+        except Exception as e:
+            bad("%s raised %s" % (which, type(e).__name__), message=str(e)[:200])
+    return fails, None, None, None
+
+
+RUNNERS = {"hand": run_hand, "schema": run_schema, "json": run_json, "flat": run_flat, "flat2": run_flat2, "snap": run_snap, "json2": run_json2,
            "init": run_init}
 EDIT_KEYS = {"aliases_append", "pk", "name", "col", "then", "col_alias_append", "drop_last"}
 
@@ -700,6 +819,8 @@ def valid_case(c):
         if not isinstance(c, dict) or c.get("kind") not in RUNNERS:
             return False
         specs = c["cols"] if c["kind"] in ("schema", "snap") else [c["col"]]
+        if c["kind"] == "hand" and c.get("which") not in HAND:
+            return False
         if c["kind"] in ("schema", "snap"):
             if not isinstance(c["name"], str) or not isinstance(c["aliases"], list) or not all(isinstance(a, str) for a in c["aliases"]):
                 return False
@@ -777,9 +898,28 @@ def model_init_expected(m):
 def evaluate(ctx, cases):
     runs = []
     lines, idx = [], []
-    for i, c in enumerate(cases):
-        if not valid_case(c):
+    checked = []
+    for c in cases:
+        if valid_case(c):
+            checked.append(c)
+            continue
+        # a case of the fixed lists whose *original* column the constructor of this tree refuses: that is a statement about
+        # the constructor, not a harness fault -- the constructor call is compared with the model instead (kind `init`)
+        subs = []
+        if isinstance(c, dict) and c.get("kind") in RUNNERS and c.get("kind") != "init":
+            for sp in (c.get("cols") if c["kind"] in ("schema", "snap") else [c.get("col")]) or []:
+                sub = {"kind": "init", "col": {k: v for k, v in sp.items() if k != "cls"}} if isinstance(sp, dict) else None
+                if sub is not None and valid_case(sub):
+                    try:
+                        construct(sp)
+                    except Exception:
+                        subs.append(sub)
+        if not subs:
             raise InfraError("generator produced an invalid case %r" % (c,))
+        ctx.hit("original-not-constructible:checked-as-constructor-call")
+        checked.extend(subs)
+    cases = checked
+    for i, c in enumerate(cases):
         fails, impl, line, op = RUNNERS[c["kind"]](c)
         runs.append((fails, impl, op))
         if line is not None:
@@ -801,6 +941,8 @@ def evaluate(ctx, cases):
         if op is None and impl is None and not fails and c["kind"] in ("snap", "json2"):
             ctx.hit("sequence-skipped:plain-round-trip-differs(%s)" % c["kind"])
         ctx.hit("kind:" + c["kind"])
+        if c["kind"] == "hand":
+            ctx.hit("hand:" + c["which"])
         for sp in specs:
             ctx.hit("class:" + sp.get("cls", "FlatColumn"))
             t = sp.get("type", "absent")
@@ -1133,9 +1275,25 @@ def exhaustive_cases(ctx):
         yield {"kind": "init", "col": {"name": "i", "identity": "id", "type": ["text", bad], "default": 5}}
     yield {"kind": "init", "col": {"name": "i", "identity": "id", "type": ["int0"]}}
     yield {"kind": "init", "col": {"name": "i", "identity": "id", "type": ["int0"], "default": 5}}
+    # fourth pass: sequences on one schema / dictionary and hand-written dictionaries, on one column of every type form
+    for fi, (form, base) in enumerate(forms):
+        for wi, which in enumerate(HAND):
+            toggles = TOGGLES if (fi + wi) % 3 == 0 else ([TOGGLES[(fi + wi) % len(TOGGLES)]] if (fi + wi) % 3 == 1 else [])
+            sp = column_spec(HAND_NAMES[(fi + wi) % len(HAND_NAMES)], form, base, list(toggles), pick=fi)
+            yield {"kind": "hand", "which": which, "col": sp}
+    # names a loader must not normalise: leading / trailing blanks, control characters, very long, outside the BMP, combining
+    for ni, nm in enumerate(HAND_NAMES):
+        form, base = forms[(7 * ni) % len(forms)]
+        sp = column_spec(nm, form, base, ["aliases", "description"], pick=ni)
+        sp["aliases"] = [nm, nm + " ", nm]          # order and duplicates are part of the attribute
+        sp["description"] = nm
+        yield {"kind": "schema", "name": nm, "aliases": [nm, " " + nm, nm], "cols": [sp], "pk": nm, "records": []}
+        yield {"kind": "json", "col": sp}
+        yield {"kind": "flat", "col": sp}
 
 
-NAMES = ["a", "b", "col", "Col", "name", "type", "é", "日本", "with space", "x" * 30, "0", ""]
+HAND_NAMES = ["c", "é", "日本 語", " lead", "trail ", "\tx\n", "tab\tname", "x" * 5000, "\U0001F600", "e\u0301", "a.b", "名" * 300, ""]
+NAMES = ["a", "b", "col", "Col", "name", "type", "é", "日本", "with space", "x" * 30, "0", "", " lead", "trail ", "\U0001F600"]
 
 
 def _base_of(form, forms):
